@@ -574,6 +574,28 @@ pub fn record_poll(out: &mut Out, tier: &str, seed: u64) {
     let mut rng = Rng::new(seed ^ 0xC05);
     let mut b = Budget { big: if tier == "thorough" { 2000 } else { 120 }, huge: if tier == "thorough" { 40 } else { 3 } };
     let mut run = 0u64;
+    if tier == "thorough" {
+        // frames whose length field takes FOUR bytes (body >= 2,097,152): one run per family and boundary
+        for extra in [0usize, 1, 5000] {
+            for fam5 in [false, true] {
+                let n = 2097152 + extra;
+                let mut body = vec![0u8, 1, b'a'];
+                if fam5 {
+                    body.push(0);
+                }
+                let fill = n - body.len();
+                body.extend((0..fill).map(|k| (k % 251) as u8));
+                let mut v = crate::topic::frame(0x30, &body);
+                v.extend_from_slice(&[0xC0, 0x00]);
+                run += 1;
+                if fam5 {
+                    poll_schedule_run::<V5>(out, &mut rng, run, &v);
+                } else {
+                    poll_schedule_run::<V3>(out, &mut rng, run, &v);
+                }
+            }
+        }
+    }
     for i in 0..n {
         run += 1;
         let v = if i % 3 == 0 { input_for::<V3>(&mut rng, &mut b, i) } else { wide_frame::<V3>(&mut rng, &mut b, i) };
